@@ -138,6 +138,7 @@ static void check_item(const op *O, size_t plen)
         n_eval++;
         if (hw[0] != hb[0] || hw[1] != hb[1] || hw[2] != hb[2]) { char key[160]; snprintf(key, sizeof key, "trace-nondeterministic/%s/publen=%zu", O->name, plen); vf_fail(key, "the same secret gave two different traces (harness problem)"); return; }
         if (hb[2] > n_events_max) n_events_max = hb[2];
+        if (b == 2 && (plen == 0 || plen == 65)) VF_SAMPLE_CASE(5, "%s public length %zu, base secret %s (%zu bytes): trace of %llu events (edges+loads+stores), hash %016llx; compared with %zu single-bit and %zu single-byte variants", O->name, plen, vf_hex(base, slen > 32 ? 32 : slen), slen, (unsigned long long) hb[2], (unsigned long long) hb[0], 8 * slen, 3 * slen);
 #define PAIR(variantname, pos) do { memcpy(SEC, var, slen); traced(O, hv, 0); n_eval++; n_nontriv++; \
             if (hv[0] != hb[0] || hv[1] != hb[1] || hv[2] != hb[2]) { report(O, variantname, (long) (pos), base, var, hb, hv); if (vf_nfail >= VF_MAXFAIL) return; goto next_base; } } while (0)
         for (i = 0; i < 8 * slen; i++) { memcpy(var, base, slen); var[i >> 3] ^= (unsigned char) (1u << (i & 7)); PAIR("bitflip", i); }
